@@ -375,7 +375,9 @@ def events_hier():
              "rows": ["A + EB [g0] / a0 -> B", "A + ED [g1] / a1 -> B", "A + * [g2] / a2", "A + EDD [g3] / a3 -> S",
                       "B + * / a4 -> A", "B + EB [g4] / a5", "S + EB [g5] / a6 -> A", "S + E1 / a7 -> B", "A + E2 / a13 -> S"]},
             {"name": "Sub", "regions": [["P", "Q"]],
-             "rows": ["P + ED [g6] / a8 -> Q", "Q + EDD [g7] / a9 -> P", "Q + EB [g8] / a10", "P + * [g9] / a11", "Q + E2 / a12 -> P"]},
+             "rows": ["P + ED [g6] / a8 -> Q", "Q + EDD [g7] / a9 -> P", "Q + EB [g8] / a10", "P + * [g9] / a11", "Q + E2 / a12 -> P"],
+             # the sub-machine's own internal table: a row triggered by the base class
+             "internal": ["EB [g10] / a14"]},
         ],
     }
 
